@@ -6,8 +6,10 @@
 (* L0  a stored entry is a record                                           *)
 (*       [id, uuid, live, a: attr -> <<values>>, c: attr -> <<char seqs>>,   *)
 (*        syn: attr -> syntax]                                              *)
-(*     (a: the values as their equality-key strings; c: the characters of   *)
-(*     the values of substring-indexed attributes).  An index table is a    *)
+(*     plus k: "type:attr" -> <<index keys>>                                 *)
+(*     (a: the values as proto strings; c: the characters of                *)
+(*     the values of substring-indexed attributes; k: the index keys the    *)
+(*     backend's own key functions generate for the entry).  An index table is a    *)
 (*     function key -> set of entry ids (empty rows do not count).  Lookup  *)
 (*     tables are observed by probing a finite key pool.                    *)
 (* L1  IndexMirror: every table equals the table computed from the stored   *)
@@ -33,11 +35,16 @@ SubSyntax == {"Utf8StringIname", "Utf8StringInsensitive", "EmailAddress"}
 SubKeys(e, at) == IF at \in DOMAIN e.c /\ at \in DOMAIN e.syn /\ e.syn[at] \in SubSyntax
                   THEN UNION {Trigraphs(e.c[at][i]) : i \in DOMAIN e.c[at]} ELSE {}
 
-\* the index keys an entry produces
-Keys(e, at, ty) == CASE ty = "eq"   -> Vals(e, at)
-                     [] ty = "pres" -> IF Has(e, at) THEN {"_"} ELSE {}
-                     [] ty = "sub"  -> SubKeys(e, at)
-                     [] OTHER       -> {}
+\* The index keys an entry produces.  L0/L1 take them as the stored entry's own keys (field k: "type:attr" ->
+\* <<keys>>, logged from the backend's key functions ValueSet::generate_idx_*_keys); KeysL2 is the
+\* transcription of those functions from the attribute values (implementation-shaped, only used for drift
+\* reporting and to build the keys of model entries).
+TK(at, ty) == ty \o ":" \o at
+Keys(e, at, ty) == IF TK(at, ty) \in DOMAIN e.k THEN Range(e.k[TK(at, ty)]) ELSE {}
+KeysL2(e, at, ty) == CASE ty = "eq"   -> Vals(e, at)
+                       [] ty = "pres" -> IF Has(e, at) THEN {"_"} ELSE {}
+                       [] ty = "sub"  -> SubKeys(e, at)
+                       [] OTHER       -> {}
 \* the table the stored entries produce
 Table(ents, at, ty) ==
   LET ks == UNION {Keys(e, at, ty) : e \in ents}
